@@ -143,14 +143,50 @@ static bool make_singular(Rng& r, Problem& P) {
   return true;
 }
 
+// a square system with SEVERAL regular solutions (all planted): (x0-a)(x0-b)[(x0-c)]=0, x_j = affine(x0)
+static bool make_multi(Rng& r, Problem& P) {
+  int n = r.range(1, 3); P.n = n; P.m = n; P.k = 0;
+  int nr = r.range(2, 3);
+  vector<double> roots; while ((int)roots.size() < nr) { double a = dyadic(r); bool dup = false; for (double b : roots) if (a == b) dup = true; if (!dup) roots.push_back(a); }
+  SystemFactory fac;
+  Array<const ExprSymbol> x(n); for (int i = 0; i < n; i++) x.set_ref(i, ExprSymbol::new_(("x" + to_string(i)).c_str(), Dim::scalar()));
+  vector<double> ca(n, 0.0), cb(n, 0.0); for (int j = 1; j < n; j++) { ca[j] = r.range(-4, 4) / 2.0; cb[j] = dyadic(r); }
+  IntervalVector box(n);
+  box[0] = Interval(-2.0 - r.range(1, 16) / 8.0, 2.0 + r.range(1, 16) / 8.0);
+  for (int j = 1; j < n; j++) box[j] = Interval(-12, 12);
+  fac.add_var(x, box);
+  P.dags = ""; P.specs = ""; P.planted.clear();
+  for (double a : roots) { Vector p(n); p[0] = a; for (int j = 1; j < n; j++) p[j] = ca[j] * a + cb[j]; P.planted.push_back(p); }
+  for (int j = 0; j < n; j++) {
+    const ExprNode* e;
+    if (j == 0) { e = &(x[0] - roots[0]); for (int k = 1; k < nr; k++) e = &(*e * (x[0] - roots[k])); if (r.coin(30)) e = &(*e * (1.0 + sqr(x[0]))); }
+    else e = &(x[j] - ca[j] * x[0] - cb[j]);
+    if (j) { P.dags += "|"; P.specs += "|"; }
+    P.dags += dump_expr(*e, x); P.specs += "eq";
+    fac.add_ctr(ExprCtr(*e, EQ));
+  }
+  P.sys = new System(fac);
+  return true;
+}
+
 static const char* status_name(Solver::Status s) {
   switch (s) { case Solver::SUCCESS: return "SUCCESS"; case Solver::INFEASIBLE: return "INFEASIBLE"; case Solver::NOT_ALL_VALIDATED: return "NOT_ALL_VALIDATED";
     case Solver::TIME_OUT: return "TIME_OUT"; case Solver::CELL_OVERFLOW: return "CELL_OVERFLOW"; default: return "USER_BREAK"; }
 }
 static string vtok(const Vector& v) { string s; for (int i = 0; i < v.size(); i++) { if (i) s += ";"; s += hex(v[i]); } return s; }
 
+static bool C06_LINES = false;
 static void report(Rng& r, Problem& P, const IntervalVector& root, const CovSolverData& d, Solver::Status st, const vector<string>& log, const Vector& eps_min, bool with_log) {
   string pv = paving_token(d, P.n, P.m);
+  if (C06_LINES && P.m > 0) {
+    // every reported solution: existence box, unicity box, variables; all the exactly known zeros
+    string pts; for (size_t k = 0; k < P.planted.size(); k++) { if (k) pts += "|"; pts += ptok(P.planted[k]); }
+    string all; for (int k = 0; k < P.n; k++) { if (k) all += "."; all += to_string(k); }
+    size_t N = d.nb_solution(), step = N > 40 ? N / 40 : 1;
+    for (size_t i = 0; i < N; i += step)
+      EMIT("solbox %s %s %s %s %s %s %s => 1\n", P.dags.c_str(), P.specs.c_str(), tok(root).c_str(), tok(d.solution(i)).c_str(), tok(d.unicity(i)).c_str(),
+           (P.m == P.n ? all : varset_tok(d.solution_varset(i))).c_str(), pts.c_str());
+  }
   if (with_log) {
     string ev; if (log.empty()) ev = "-"; for (size_t i = 0; i < log.size(); i++) { if (i) ev += ","; ev += log[i]; }
     EMIT("solvelog %s %s %s %s %s => %s\n", P.dags.c_str(), P.specs.c_str(), tok(root).c_str(), ev.c_str(), pv.c_str(), status_name(st));
@@ -160,6 +196,7 @@ static void report(Rng& r, Problem& P, const IntervalVector& root, const CovSolv
   for (int k = 0; k < 12; k++) { Vector q(P.n); for (int i = 0; i < P.n; i++) { double t = r.range(0, 32) / 32.0; q[i] = root[i].lb() + t * (root[i].ub() - root[i].lb()); if (!root[i].contains(q[i])) q[i] = root[i].lb(); }
     if (r.coin(40)) { int i = r.below(P.n); q = P.planted[0]; q[i] = root[i].lb() + r.range(0, 32) / 32.0 * (root[i].ub() - root[i].lb()); if (!root[i].contains(q[i])) q[i] = P.planted[0][i]; }
     pts.push_back(q); }
+  if (!C06_LINES)   // (completeness is property C05)
   for (auto& q : pts) if (root.contains(q)) EMIT("solvept %s %s %s %s => 1\n", P.dags.c_str(), P.specs.c_str(), ptok(q).c_str(), pv.c_str());
   // (a sample of at most 25 boxes of each kind)
   { size_t N = d.nb_inner(), step = N > 25 ? N / 25 : 1; for (size_t i = 0; i < N; i += step) if (P.m == 0) EMIT("solveinner %s %s %s => 1\n", P.dags.c_str(), P.specs.c_str(), tok(d.inner(i)).c_str()); }
@@ -262,10 +299,13 @@ int main(int argc, char** argv) {
     fprintf(stderr, "emitted %ld\n", emitted);
     return 0;
   }
-  if (wl != "c05") { fprintf(stderr, "unknown workload\n"); return 2; }
+  if (wl != "c05" && wl != "c06") { fprintf(stderr, "unknown workload\n"); return 2; }
+  C06_LINES = (wl == "c06");
   for (long it = 0; it < n; it++) {
     try {
-      Problem P; if (!make_problem(r, P)) continue;
+      Problem P;
+      if (C06_LINES && r.coin(45)) { if (!(r.coin(60) ? make_multi(r, P) : make_singular(r, P))) continue; }
+      else if (!make_problem(r, P)) continue;
       System& sys = *P.sys; IntervalVector root = sys.box;
       double e = r.coin() ? 0.125 : (r.coin() ? 1e-3 : 0.03125);
       Vector eps_min(P.n, e); if (r.coin(30)) for (int i = 0; i < P.n; i++) eps_min[i] = r.coin() ? e : e * 4;
@@ -291,7 +331,7 @@ int main(int argc, char** argv) {
         Solver::Status st = s.solve(root);
         LOG = 0;
         check_round_up("solver");
-        report(r, P, root, s.get_data(), st, log, eps_min, log.size() < 6000);
+        report(r, P, root, s.get_data(), st, log, eps_min, log.size() < 6000 && !C06_LINES);
         delete bsc; if (withnewton) delete withnewton; if (newton) delete newton;
       }
       // ---- the default solver must deliver a paving and a status (no LP library in this build) ----
